@@ -108,7 +108,7 @@ Definition transfer_ok (pre post : obs) (blk : block) (chan remote : N) (timeout
                 only_changed pre post chan k) then 3
   else 0.
 
-Definition s_c12 (pre : obs) (s : tstep) : N :=
+Definition s_c12 (legacy : bool) (pre : obs) (s : tstep) : N :=
   let post := after_of s in
   match s with
   | TExec blk sender o hok ok ms _ =>
@@ -160,7 +160,11 @@ Definition s_c12 (pre : obs) (s : tstep) : N :=
       else 0
   | TDonate k n _ => if chan_same pre post then 0 else 14
   | TSetVersion _ _ => 0
-  | TMigrate _ _ ok _ => if ok then 0 else (if money_same pre post then 0 else 4)
+  | TMigrate _ _ ok _ =>
+      if negb ok then (if money_same pre post then 0 else 4)
+      else if legacy && negb (forallb (fun e => let '(_, k, x, _) := e in x =? ohold post k) (ob_chan post)) then 15
+                                                (* migrated from an old layout, yet outstanding <> what is actually escrowed *)
+      else 0
   end.
 
 (* ghost update for an accepted step *)
@@ -173,6 +177,7 @@ Definition ghost_step (g : ghost) (s : tstep) : ghost :=
   | TRecv _ p false AckOk [Payout k _ n _] _ => gadd g (ip_dest_chan p) k 0 0 n
   | TFail _ p _ true _ _ _ => gadd g (op_chan p) (op_key p) 0 (op_amount p) 0
   | TMigrate _ _ true a => ghost_of_obs a                 (* the identity restarts from the migrated balances *)
+  | TSetVersion _ a => ghost_of_obs a                     (* ... and from whatever the legacy layout holds *)
   | _ => g
   end.
 
@@ -306,6 +311,10 @@ Definition set_version (st : state) (v : version) : state :=
   | _ => mkSt (default_timeout st) (default_gas st) (admin st) (allow st) (channels st) (chan_state st) (reply_args st) v (v1_gov st)
   end.
 
+(* the harness's legacy layouts also un-reconcile one channel entry: the table is read back *)
+Definition cs_of_obs (o : obs) : amap (N * N) cstate :=
+  fold_right (fun e m => let '(c, k, x, t) := e in set ordNN m (c, k) (mkCs x t)) [] (ob_chan o).
+
 Definition fake_after (fake : list N) (s : tstep) : list N :=
   match s with TExec _ sender (Receive _ _ _ _) _ _ _ _ => sender :: fake | _ => fake end.
 
@@ -320,7 +329,7 @@ Fixpoint check_steps (prop : N) (keys : list N) (i : N) (w : world) (fake : list
       let fake' := fake_after fake s in
       let c := match prop with
                | 11 => s_c11 fake' keys prev s
-               | 12 => s_c12 prev s
+               | 12 => s_c12 (match ver (w_st w) with V1 | V2 => Nat.leb (length (channels (w_st w))) 1 | _ => false end) prev s
                | 18 => s_c18 prev (ver (w_st w)) s
                | _ => 0
                end in
@@ -330,7 +339,7 @@ Fixpoint check_steps (prop : N) (keys : list N) (i : N) (w : world) (fake : list
       let '(hm, mm) := model_handler (w_st w) s in
       let '(ho, mo) := obs_handler s in
       let w' := match s with
-                | TSetVersion v _ => mkW (set_version (w_st w) v) (w_hold w)
+                | TSetVersion v a => mkW (with_cs (set_version (w_st w) v) (cs_of_obs a)) (w_hold w)
                 | _ => match wop_of s with Some (blk, o) => wstep w blk o | None => w end
                 end in
       if negb (Bool.eqb hm ho) then [(i, 49)]
